@@ -97,6 +97,20 @@ def defer_measurements(
 
     circuit = transformer_primitives.unroll_circuit_op(circuit, deep=True, tags_to_check=None)
     terminal_measurements = {op for _, op in find_terminal_measurements(circuit)}
+    # Deferred measurements are re-measured at the very end. A terminal measurement whose key
+    # is also measured by a deferred measurement has to be deferred as well, otherwise the
+    # records of that key change their order.
+    deferred_keys = {
+        key
+        for op in circuit.all_operations()
+        if op not in terminal_measurements
+        for key in protocols.measurement_key_objs(op)
+    }
+    terminal_measurements = {
+        op
+        for op in terminal_measurements
+        if deferred_keys.isdisjoint(protocols.measurement_key_objs(op))
+    }
     measurement_qubits: dict[cirq.MeasurementKey, list[tuple[cirq.Qid, ...]]] = defaultdict(list)
 
     def defer(op: cirq.Operation, _) -> cirq.OP_TREE:
